@@ -760,3 +760,52 @@ pub fn ipv6_shapes() -> Vec<String> {
     v.dedup();
     v
 }
+
+
+// ------------------------------------------------------------- length sweeps
+
+/// Lengths around every plausible fixed-width, chunking or inline-buffer threshold.
+pub fn sweep_lengths() -> Vec<usize> {
+    let mut v: Vec<usize> = (0..=70).collect();
+    for base in [127usize, 255, 511, 1023, 4095, 65535] {
+        v.extend_from_slice(&[base - 1, base, base + 1, base + 2]);
+    }
+    v.extend_from_slice(&[79, 80, 81, 95, 96, 97, 111, 112, 113, 143, 144, 145, 159, 160, 161, 300, 700, 2000]);
+    v.sort();
+    v.dedup();
+    v
+}
+
+/// References in which ONE component has exactly `len` bytes (ASCII) or `len` characters of a
+/// two-byte letter: scheme, user info, host, port, first/middle/last path segment, query, fragment.
+pub fn length_sweep_refs(len: usize, iri: bool) -> Vec<String> {
+    let unit = if iri { "\u{e9}" } else { "a" };
+    let body = unit.repeat(len);
+    let ascii = "a".repeat(len);
+    let digits = "7".repeat(len);
+    let mut v = vec![
+        format!("s://u@h:1/{}", body),
+        format!("s://u@h:1/{}/x", body),
+        format!("s://u@h:1/x/{}/y", body),
+        format!("s://u@h:1/x/y/{}", body),
+        format!("{}/x", body),
+        format!("/{}", body),
+        format!("x/{}/", body),
+        format!("s:{}", body),
+        format!("s://{}@h/p", body),
+        format!("s://{}/p", body),
+        format!("s://h:{}/p", digits),
+        format!("//{}", body),
+        format!("s://h/p?{}", body),
+        format!("s://h/p#{}", body),
+        format!("?{}#{}", body, body),
+        format!("s://h/{}?q#f", "x/".repeat(len)),
+        format!("{}x", "../".repeat(len)),
+        format!("/a/{}b", "./".repeat(len)),
+    ];
+    if len > 0 {
+        v.push(format!("a{}://h/p", &ascii[1..]));
+        v.push(format!("a{}:p", &ascii[1..]));
+    }
+    v
+}
